@@ -78,7 +78,7 @@ theorem C08_ignore_nests (c : LinComb) (s s' : St) (bak : GuardBak) (h : addGuar
 /-- inside the outermost region the active guard and the meaning of constants are the condition -/
 theorem C08_outermost (c : LinComb) (s s' : St) (bak : GuardBak) (hg : s.guard = none)
     (h : addGuard (.lc c) s = .ok (bak, s')) : s'.guard = some c ∧ s'.one = c := by
-  unfold addGuard at h
+  unfold addGuard unwrapBoolCond addGuardCore at h
   simp only at h
   split at h
   · cases h
